@@ -390,10 +390,11 @@ InitDies ==
   /\ UNCHANGED <<hostV, h2c, c2h, sockH, cRecvCh, cSL, cRL, cDone, scall, sSyncAfter, sSynced, bad>>
 InitKilled ==                                   \* process.Kill() of Destroy, or an external crash of init
   /\ (AllowCrash \/ (AllowDestroy /\ sockH = "closed")) /\ InitDies
-HostCrash ==                                    \* the controlling process is killed: socket closes, Pdeathsig fires
-  /\ AllowCrash /\ hostAlive
+HostDies ==                                     \* the controlling process is killed: its socket closes
+  /\ hostAlive
   /\ hostAlive' = FALSE /\ sockH' = "closed"
   /\ UNCHANGED <<hpc, call, hop, hret, hres, ctx, hSendCh, hRecvCh, hSL, hRL, hDone, h2c, c2h, sockC, contV, bad>>
+HostCrash == AllowCrash /\ HostDies
 Pdeathsig ==                                    \* SIGKILL to init on parent death
   /\ ~hostAlive /\ Alive /\ Die
   /\ UNCHANGED <<hostV, h2c, c2h, sockH, cRecvCh, cSL, cRL, cDone, scall, sSyncAfter, sSynced, bad>>
